@@ -597,8 +597,9 @@ func runC03(c *Check) {
 }
 
 // define / pure / drop / drop-labels: patterns with markers.
-//   @N@  -> define target DEF_N (reference: 5)        @O@ -> DEF_O.b (reference: a)
-//   «e»  -> console call dropped (reference: void 0)  ‹s› -> dropped label statement (reference: ;)
+//
+//	@N@  -> define target DEF_N (reference: 5)        @O@ -> DEF_O.b (reference: a)
+//	«e»  -> console call dropped (reference: void 0)  ‹s› -> dropped label statement (reference: ;)
 var c03OptPatterns = []string{
 	"return [@N@, $0 + @N@, typeof @N@, @N@ + 1, -@N@, {DEF_N: 1}.DEF_N, {k: @N@}, a.DEF_N, `${@N@}`];",
 	"return @N@ ? $0 : 2;",
